@@ -837,6 +837,20 @@ static void run_fuzz_case(struct rng *r, long c, uint64_t seed)
 			     CHN[i], (unsigned long long)LAST_OUTCOME, (unsigned long long)ref, LAST_RECORDS, refn);
 		}
 	}
+	{
+		/* once more with transport errors interleaved at arbitrary calls: outcomes legitimately differ, so this
+		 * run is judged for safety only (sanitizers, assertions, spin monitors) */
+		struct scen one = sc;
+
+		one.cfg.chunk_rx = CH_RANDOM;
+		one.cfg.p_tfault = 40;
+		one.cfg.misbehave_until_query = 6;
+		one.cfg.fuzz_seed = sc.cfg.fuzz_seed;
+		VO.muted = true;
+		run_scen(&one, mix64(seed, (uint64_t)c) ^ 0xfa17, NULL);
+		VO.muted = false;
+		CNT("c04/streams_with_transport_errors");
+	}
 	nontrivial(hmix(ref, (uint64_t)refn));
 	if (want_sample())
 		sample("{\"shape\":%ld,\"fuzz_seed\":\"%016llx\",\"records_in_tables_afterwards\":%lu,\"outcome_digest\":\"%016llx\"}", c % 4,
